@@ -1032,13 +1032,18 @@ def pattern_family(rng, P, kind, shape=None):
         r1 = rng.randrange(r0 + 1, max(r0 + 2, k))
         r1 = min(r1, k - 1) if k > 2 else r1
         rects = [(1, r0, max(2, n - 1), r1)]                       # the trunk
+        used = {"n": [], "s": []}
         for a, b in line_intervals(rng, n):
             if b > max(2, n - 1) or a < 1:
                 continue
             side = rng.random()
-            if side < 0.45 and r1 < k:
+            sd = "n" if side < 0.45 and r1 < k else "s" if side < 0.9 and r0 > 0 else None
+            if sd is None or any(min(b, d) > max(a, c) for c, d in used[sd]):
+                continue                                                     # branches of one side never overlap
+            used[sd].append((a, b))
+            if sd == "n":
                 rects.append((a, r1, b, rng.randrange(r1 + 1, k + 1)))       # north
-            elif side < 0.9 and r0 > 0:
+            else:
                 rects.append((a, rng.randrange(0, r0), b, r0))               # south
         if rng.random() < 0.5 and n - 1 >= 2:
             rects.append((0, r0, 1, r1))                                     # west
